@@ -76,6 +76,7 @@ Definition mstep_old (c : config) (log : list entry) (m : mgr) (o : mop) : mgr :
               (get_diff_old (fuel_of log) c log vis m)
   | MFailCommon _ => clear_gaps (clear_gaps (clear_gaps m 0) 1) SEQ
   | MFailChan _ s => if (2 <=? s) && (s <? nseq c) && mtracked m s then clear_gaps m s else m
+  | MAffected _ id => fold_left (affected c) (find_entry log id) m
   end.
 Definition mrun_old (c : config) (log : list entry) (ops : list mop) : mgr :=
   fold_left (mstep_old c log) ops (mgr_init c).
